@@ -2,7 +2,7 @@
 // PRNG all decisions derive from, the event log with its rolling hash, result and
 // violation types, fingerprints for coverage accounting, and the greedy shrinker.
 //
-// Nothing in this package reads a clock, iterates a Go map without sorting, or draws
+// Nothing in this package reads a clock (except the time bound of the shrinker), iterates a Go map without sorting, or draws
 // from any randomness other than *Rand.
 package core
 
